@@ -211,10 +211,12 @@ pub fn run_roundtrip(ctx: &mut Ctx) {
 
 // ------------------------------------------------------------------------------------------------
 
+thread_local! { static FOOTER_MISMATCH: std::cell::RefCell<Option<String>> = const { std::cell::RefCell::new(None) }; }
+
 fn verdict_seek(obj: &[u8], h: &MerkleHash) -> String {
     match catch(|| CasObject::validate_cas_object(&mut Cursor::new(obj), h)) {
         Err(()) => "error:panic".into(),
-        Ok(Ok(Some(c))) => format!("accept gb=- {}", info_digest(&c)),
+        Ok(Ok(Some(c))) => { if let Some(m) = footer_mismatch(obj, &c) { FOOTER_MISMATCH.with(|f| *f.borrow_mut() = Some(format!("seekable: {m}"))); } format!("accept gb=- {}", info_digest(&c)) }
         Ok(Ok(None)) => "reject".into(),
         Ok(Err(e)) => format!("error:{}", err_name(&e)),
     }
@@ -223,7 +225,7 @@ fn verdict_seek(obj: &[u8], h: &MerkleHash) -> String {
 fn verdict_stream(rt: &tokio::runtime::Runtime, obj: &[u8], h: &MerkleHash) -> String {
     match catch(|| rt.block_on(cas_object::validate_cas_object_from_async_read(&mut futures::io::Cursor::new(obj), h))) {
         Err(()) => "error:panic".into(),
-        Ok(Ok(Some((c, gb)))) => format!("accept gb={} {}", gb.map(|g| g.to_string()).unwrap_or("-".into()), info_digest(&c)),
+        Ok(Ok(Some((c, gb)))) => { if let Some(m) = footer_mismatch(obj, &c) { FOOTER_MISMATCH.with(|f| *f.borrow_mut() = Some(format!("streaming: {m}"))); } format!("accept gb={} {}", gb.map(|g| g.to_string()).unwrap_or("-".into()), info_digest(&c)) }
         Ok(Ok(None)) => "reject".into(),
         Ok(Err(e)) => format!("error:{}", err_name(&e)),
     }
@@ -256,6 +258,65 @@ fn independent_root(obj: &[u8], nchunks_hint: Option<usize>) -> Option<(MerkleHa
     Some((cas_node_hash(&hl), pos))
 }
 
+/// what the chunk region says, recomputed by hand: (chunk hashes, boundary offsets, unpacked offsets)
+fn independent_tables(obj: &[u8], nchunks: usize) -> Option<(Vec<MerkleHash>, Vec<u32>, Vec<u32>)> {
+    let (mut pos, mut upos) = (0usize, 0usize);
+    let (mut hs, mut bs, mut us) = (Vec::new(), Vec::new(), Vec::new());
+    for _ in 0..nchunks {
+        if pos + 8 > obj.len() { return None; }
+        let clen = obj[pos + 1] as usize | (obj[pos + 2] as usize) << 8 | (obj[pos + 3] as usize) << 16;
+        if pos + 8 + clen > obj.len() { return None; }
+        let payload = &obj[pos + 8..pos + 8 + clen];
+        let data = match obj[pos + 4] { 0 => payload.to_vec(), 1 => cas_object::lz4_decompress_from_slice(payload).ok()?, 2 => cas_object::bg4_lz4_decompress_from_slice(payload).ok()?, _ => return None };
+        pos += 8 + clen; upos += data.len();
+        hs.push(compute_data_hash(&data)); bs.push(pos as u32); us.push(upos as u32);
+    }
+    Some((hs, bs, us))
+}
+
+/// "any footer it relied on matches the chunk data": the object returned by an accepting validator against the chunk region
+fn footer_mismatch(obj: &[u8], c: &CasObject) -> Option<String> {
+    let n = c.info.num_chunks as usize;
+    let Some((hs, bs, us)) = independent_tables(obj, n) else { return Some(format!("the chunk region does not hold {n} decodable chunks")); };
+    if c.info.chunk_hashes != hs { return Some("chunk_hashes differ from the hashes of the decoded chunks".into()); }
+    if c.info.chunk_boundary_offsets != bs { return Some(format!("chunk_boundary_offsets {:?} differ from the chunk region's {:?}", &c.info.chunk_boundary_offsets[..n.min(6)], &bs[..n.min(6)])); }
+    // (a version-0 footer carries no unpacked offsets: the table is then empty and nothing was relied on)
+    if !c.info.unpacked_chunk_offsets.is_empty() && c.info.unpacked_chunk_offsets != us { return Some(format!("unpacked_chunk_offsets {:?} differ from the decoded lengths' {:?}", &c.info.unpacked_chunk_offsets[..c.info.unpacked_chunk_offsets.len().min(6)], &us[..n.min(6)])); }
+    None
+}
+
+/// a V1 footer written field by field, so that single fields can be made inconsistent while the rest still parses
+#[derive(Clone)]
+struct FooterV1 { version: u8, cashash: MerkleHash, hv: u8, n1: u32, hashes: Vec<MerkleHash>, bv: u8, n2: u32, bounds: Vec<u32>, unpacked: Vec<u32>, n3: u32, ho: Option<u32>, bo: Option<u32>, il_delta: i64 }
+
+impl FooterV1 {
+    fn of(b: &Built) -> Self {
+        let i = &b.cas.info;
+        FooterV1 { version: i.version, cashash: i.cashash, hv: i.hashes_version, n1: i.num_chunks, hashes: i.chunk_hashes.clone(), bv: i.boundaries_version, n2: i.num_chunks,
+                   bounds: i.chunk_boundary_offsets.clone(), unpacked: i.unpacked_chunk_offsets.clone(), n3: i.num_chunks, ho: None, bo: None, il_delta: 0 }
+    }
+    /// footer bytes followed by the info_length word; section offsets are the true ones unless overridden
+    fn bytes(&self) -> Vec<u8> {
+        let mut o = Vec::new();
+        o.extend_from_slice(b"XETBLOB"); o.push(self.version); o.extend_from_slice(self.cashash.as_bytes());
+        let hs_start = o.len();
+        o.extend_from_slice(b"XBLBHSH"); o.push(self.hv); o.extend_from_slice(&self.n1.to_le_bytes());
+        for h in &self.hashes { o.extend_from_slice(h.as_bytes()); }
+        let bs_start = o.len();
+        o.extend_from_slice(b"XBLBBND"); o.push(self.bv); o.extend_from_slice(&self.n2.to_le_bytes());
+        for x in &self.bounds { o.extend_from_slice(&x.to_le_bytes()); }
+        for x in &self.unpacked { o.extend_from_slice(&x.to_le_bytes()); }
+        let total = o.len() + 4 + 4 + 4 + 16;
+        o.extend_from_slice(&self.n3.to_le_bytes());
+        o.extend_from_slice(&self.ho.unwrap_or((total - hs_start) as u32).to_le_bytes());
+        o.extend_from_slice(&self.bo.unwrap_or((total - bs_start) as u32).to_le_bytes());
+        o.extend_from_slice(&[0u8; 16]);
+        let il = (o.len() as i64 + self.il_delta).max(0) as u32;
+        o.extend_from_slice(&il.to_le_bytes());
+        o
+    }
+}
+
 fn v0_object(b: &Built) -> Vec<u8> {
     let clen = *b.cas.info.chunk_boundary_offsets.last().unwrap() as usize;
     let mut o = b.obj[..clen].to_vec();
@@ -280,6 +341,9 @@ pub fn run_validate(ctx: &mut Ctx) {
         let (off, len) = ctx.blob(obj);
         let vs = verdict_seek(obj, h);
         let vt = verdict_stream(rt, obj, h);
+        if let Some(m) = FOOTER_MISMATCH.with(|f| f.borrow_mut().take()) {
+            ctx.fail("C08", "accepted-footer-differs-from-chunks", format!("validator accepted a {class} input of {len} bytes but the footer it returns does not match the chunk data: {m}"), replay.to_string());
+        }
         for (name, v) in [("seekable", &vs), ("streaming", &vt)] {
             if v.starts_with("error:panic") {
                 ctx.fail("C08", &format!("panic-{name}-{class}"), format!("{name} validator panicked on a {class} input of {len} bytes"), replay.to_string());
@@ -360,6 +424,51 @@ pub fn run_validate(ctx: &mut Ctx) {
             emit(ctx, &rt, &drop, &b.hash, "drop-chunk", &replay);
             let mut sw = Vec::new(); for k in 0..n { sw.extend_from_slice(seg(if k == 0 { 1 } else if k == 1 { 0 } else { k })); } sw.extend_from_slice(&b.obj[clen..]);
             emit(ctx, &rt, &sw, &b.hash, "swap-chunks", &replay);
+        }
+        // structured footers: the footer is re-written field by field with 1-3 fields made inconsistent (counts off by one,
+        // section versions, table entries, section offsets, length word) over the original / extended / shortened chunk region
+        {
+            let bo = &b.cas.info.chunk_boundary_offsets;
+            let seg = |i: usize| -> &[u8] { let s = if i == 0 { 0 } else { bo[i - 1] as usize }; &b.obj[s..bo[i] as usize] };
+            for si in 0..(if ctx.quick() { 36 } else { 200 }) {
+                let mut f = FooterV1::of(&b);
+                let region_kind = if si < 6 { 1 } else { rng.below(4) };
+                let mut region = b.obj[..clen].to_vec();
+                match region_kind {
+                    1 => { let extra = seg(rng.below(n as u64) as usize).to_vec(); region.extend_from_slice(&extra); }   // one more well-formed chunk before the footer
+                    2 if n >= 2 => { region.truncate(bo[n - 2] as usize); }                                              // last chunk dropped
+                    _ => {}
+                }
+                let nm = if si < 6 { 1 } else { rng.range(1, 3) };
+                for mi in 0..nm {
+                    let d: u32 = if rng.chance(1, 2) { 1 } else { rng.range(1, 3) as u32 };
+                    let up = rng.chance(2, 3);
+                    let adj = |x: u32| if up { x.wrapping_add(d) } else { x.wrapping_sub(d) };
+                    let pick = if si < 6 { [2u64, 0, 1, 9, 10, 11][si as usize] } else { rng.below(14) };
+                    match pick {
+                        0 => f.n1 = adj(f.n1),
+                        1 => f.n2 = adj(f.n2),
+                        2 => f.n3 = adj(f.n3),
+                        3 => { f.n1 = adj(f.n1); f.n2 = f.n1; f.n3 = f.n1; }
+                        4 => { let i = rng.below(f.unpacked.len() as u64) as usize; f.unpacked[i] = adj(f.unpacked[i]); }
+                        5 => { let i = rng.below(f.bounds.len() as u64) as usize; f.bounds[i] = adj(f.bounds[i]); }
+                        6 => { let i = rng.below(f.hashes.len() as u64) as usize; let mut h = f.hashes[i]; h[rng.below(4) as usize] ^= 1 << rng.below(64); f.hashes[i] = h; }
+                        7 => f.bv = *rng.pick(&[0u8, 2, 255]),
+                        8 => { f.bv = 0; let i = rng.below(f.unpacked.len() as u64) as usize; f.unpacked[i] = adj(f.unpacked[i]); }
+                        9 => { f.hv = *rng.pick(&[1u8, 2]); }
+                        10 => { f.version = *rng.pick(&[0u8, 2, 3]); }
+                        11 => { // tables grown/shrunk consistently with all three counts (footer self-consistent, region not)
+                            if up { f.hashes.push(*f.hashes.last().unwrap()); f.bounds.push(f.bounds.last().unwrap() + 9); f.unpacked.push(f.unpacked.last().unwrap() + 1); }
+                            else if f.hashes.len() > 1 { f.hashes.pop(); f.bounds.pop(); f.unpacked.pop(); }
+                            f.n1 = f.hashes.len() as u32; f.n2 = f.n1; f.n3 = f.n1; }
+                        12 => { if rng.chance(1, 2) { f.ho = Some(adj(FooterV1::of(&b).bytes().len() as u32 / 2)); } else { f.bo = Some(adj(60)); } }
+                        _ => f.il_delta = if up { d as i64 } else { -(d as i64) },
+                    }
+                    let _ = mi;
+                }
+                let mut m = region; m.extend_from_slice(&f.bytes());
+                emit(ctx, &rt, &m, &b.hash, "structured-footer", &replay);
+            }
         }
         // trailing bytes, inflated counts
         let mut t = b.obj.clone(); let k = rng.range(1, 9) as usize; t.extend_from_slice(&rng.bytes(k));
